@@ -39,6 +39,12 @@ def projects():
                 + _fn("test_id", ID, no, "self", "    ") + _fn("test_w", WR, no, "self", "    "), want, None))
     out.append(("module pytestmark and a conditional mark on the function", "import sys\n" + HDR + "pytestmark = pytest.mark.xfail(reason='r')\n\n"
                 + _fn("test_id", ID, no) + _fn("test_w", WR, no), want, None))
+    # condition strings (pytest evaluates them in a namespace where the module's own globals win over os / sys / platform / config): true here
+    shadow = "platform = 'mine'\nconfig = {'mode': 'x'}\n\n"
+    for nm, cond in (("condition string using a module global that shadows `platform`", "\"platform == 'mine'\""), ("condition string using a module global that shadows `config`", "\"config['mode'] == 'x'\""),
+                     ("condition string with sys", "\"sys.version_info >= (3, 0)\"")):
+        mark = f"@pytest.mark.xfail({cond}, reason='r')"
+        out.append((nm, "import sys\n" + HDR + shadow + _fn("test_id", ID, mark) + _fn("test_w", WR, mark), want, None))
     # not xfail: the condition is False - the test is an ordinary one
     out.append(("xfail(False)", HDR + "@pytest.mark.xfail(False, reason='not now')\ndef test_x():\n    assert type(snapshot(5)) is not int\n    assert 3 == snapshot()\n",
                 {"test_x": "error-or-passed"}, "active"))
